@@ -3,6 +3,7 @@
 set -e
 cd /verif
 git merge --no-commit --no-ff agent-$1 >/tmp/merge_$1.log 2>&1 || true
+git diff --name-only --diff-filter=U | grep "^evidence/" | xargs -r git checkout --ours -- 2>/dev/null || true
 for f in lean/PydapModel.lean lean/Proofs.lean lean/Props.lean lean/Driver.lean lean/Main.lean MANIFEST.json; do
   git checkout --ours -- $f 2>/dev/null || true
 done
